@@ -3,65 +3,17 @@
 From Snax Require Import Base.Prelude Model.C20Phs Proofs.C20PhsProofs Proofs.C20DecodeProofs
   Proofs.C20SearchProofs Proofs.C20AppendProofs.
 
-(* ---------------------------------------------------------------- plain graphs *)
-Lemma plain_pe_spec G : plain_pe G = true <-> forall n k, In n (pnodes G) -> In k (nops n) -> oattr k = 0.
+(* an embedded kernel's operations are among the alternatives: decode's choice (phs.same_operation) is the
+   kernel's operation — no attribute-freeness needed since fix 29d845f *)
+Lemma emb_ops_agree g G : is_concrete g = true -> embeds g G -> ops_agree g G = true.
 Proof.
-  unfold plain_pe, plain_node. rewrite forallb_forall. split.
-  - intros H n k Hn Hk. specialize (H n Hn). rewrite forallb_forall in H. apply Z.eqb_eq. apply H. exact Hk.
-  - intros H n Hn. apply forallb_forall. intros k Hk. apply Z.eqb_eq. eapply H; eauto.
-Qed.
-
-Lemma append_node_plain G c G1 :
-  plain_pe G = true -> plain_node c = true -> append_node G c = Some G1 -> plain_pe G1 = true.
-Proof.
-  intros HG Hc H. rewrite plain_pe_spec in *. unfold plain_node in Hc. rewrite forallb_forall in Hc.
-  unfold append_node in H. destruct (find_node (pnodes G) (nid c)) as [a|] eqn:Ea.
-  - destruct (uncollide_args G (pnsw G) (nargs c) (nargs a)) as [[args' n']|]; [|discriminate].
-    destruct (insert_ops (nops a) (nops c)) as [ops'|] eqn:Ei; [|discriminate]. inversion H; subst G1. clear H.
-    cbn [pnodes]. intros n k Hn Hk. destruct (in_replace_node _ _ _ _ Hn) as [->|Hn'].
-    + cbn [nops] in Hk. destruct (insert_ops_attr _ _ _ Ei k Hk) as [Hold|H0]; [|exact H0].
-      destruct (find_node_some _ _ _ Ea) as [HaG _]. eapply HG; eauto.
-    + eapply HG; eauto.
-  - destruct (map_opt (equiv_owner G) (nargs c)) as [es|]; [|discriminate].
-    destruct (nops c) as [|k0 ks] eqn:Ek; [discriminate|]. inversion H; subst G1. clear H.
-    cbn [pnodes]. intros n k Hn Hk. apply in_app_or in Hn as [Hn|[<-|[]]]; [eapply HG; eauto|].
-    cbn [nops] in Hk. apply Z.eqb_eq. apply Hc. exact Hk.
-Qed.
-
-Lemma append_nodes_plain : forall cs G G1,
-  plain_pe G = true -> forallb plain_node cs = true -> append_nodes cs G = Some G1 -> plain_pe G1 = true.
-Proof.
-  induction cs as [|c cs IH]; intros G G1 HG Hcs H.
-  - unfold append_nodes in H. cbn [fold_left] in H. inversion H; subst. exact HG.
-  - rewrite append_nodes_cons in H. destruct (append_node G c) as [G0|] eqn:E0; [|discriminate].
-    cbn [forallb] in Hcs. apply andb_true_iff in Hcs as [Hc Hcs].
-    eapply IH; [|exact Hcs|exact H]. eapply append_node_plain; eauto.
-Qed.
-
-Lemma append_plain g' G G' : plain_pe G = true -> plain_pe g' = true -> append g' G = Some G' -> plain_pe G' = true.
-Proof.
-  intros HG Hg H. unfold append in H.
-  destruct (append_nodes (pnodes g') G) as [G1|] eqn:E1; [|discriminate].
-  destruct (uncollide_args G1 (pnsw G1) (pout g') (pout G1)) as [[o' n']|]; [|discriminate].
-  inversion H; subst G'. unfold plain_pe. cbn [pnodes].
-  apply (append_nodes_plain (pnodes g') G G1 HG Hg E1).
-Qed.
-
-(* plain graphs: decode's choice by operation type is the kernel's operation *)
-Lemma plain_ops_agree g G :
-  is_concrete g = true -> plain_pe g = true -> plain_pe G = true -> embeds g G -> ops_agree g G = true.
-Proof.
-  intros Hc Hpg HpG [Hn _]. rewrite plain_pe_spec in *. rewrite Forall_forall in Hn.
+  intros Hc [Hn _]. rewrite Forall_forall in Hn.
   unfold ops_agree. apply forallb_forall. intros c Hin.
   destruct (Hn c Hin) as (a & Ha & _ & Hops). rewrite Ha. unfold alt_agree.
   unfold is_concrete in Hc. apply andb_true_iff in Hc as [Hc _]. rewrite forallb_forall in Hc.
   specialize (Hc c Hin). apply andb_true_iff in Hc as [Hc _]. apply Nat.eqb_eq in Hc.
   destruct (nops c) as [|k [|? ?]] eqn:Ek; try discriminate.
-  destruct (Hops k (or_introl eq_refl)) as [k' Hk']. rewrite Hk'.
-  destruct (find_op_some _ _ _ Hk') as [Hk'in Hname]. destruct (find_node_some _ _ _ Ha) as [HaG _].
-  apply opk_eqb_eq. destruct k as [n1 a1], k' as [n2 a2]. cbn [oname] in Hname. subst n2.
-  assert (a2 = 0) by (apply (HpG a (mkOp n1 a2) HaG Hk'in)).
-  assert (a1 = 0) by (apply (Hpg c (mkOp n1 a1) Hin); rewrite Ek; left; reflexivity). congruence.
+  destruct (Hops k (or_introl eq_refl)) as [k' Hk']. rewrite Hk'. reflexivity.
 Qed.
 
 (* ---------------------------------------------------------------- the fold over the history *)
@@ -73,20 +25,16 @@ Proof. induction gs as [|g gs IH]; cbn [fold_left ma_step]; [reflexivity|exact I
 
 Lemma history_invariant : forall rest (S : pe -> Prop) G0 G,
   fold_left ma_step rest (Some G0) = Some G ->
-  (forall g, In g rest -> plain_pe g = true) ->
-  plain_pe G0 = true ->
   (forall g, S g -> embeds g G0) ->
-  (forall g, S g \/ In g rest -> embeds g G) /\ plain_pe G = true /\ pdata G = pdata G0.
+  (forall g, S g \/ In g rest -> embeds g G) /\ pdata G = pdata G0.
 Proof.
-  induction rest as [|g' rest IH]; intros S G0 G H Hpl HG0 HS.
+  induction rest as [|g' rest IH]; intros S G0 G H HS.
   - cbn [fold_left] in H. inversion H; subst. split; [|auto]. intros g [Hg|[]]. apply HS. exact Hg.
   - cbn [fold_left ma_step] in H. destruct (append g' G0) as [G1|] eqn:E1; [|rewrite ma_fold_none in H; discriminate].
     destruct (append_embeds g' G0 G1 E1) as (Hm & Hs & Hd).
-    destruct (IH (fun g => S g \/ g = g') G1 G H) as (He & Hp & Hdd).
-    + intros g Hg. apply Hpl. right. exact Hg.
-    + apply (append_plain g' G0 G1 HG0 (Hpl g' (or_introl eq_refl)) E1).
+    destruct (IH (fun g => S g \/ g = g') G1 G H) as (He & Hdd).
     + intros g [Hg| ->]; [apply Hm; apply HS; exact Hg|exact Hs].
-    + split; [|split; [exact Hp|congruence]].
+    + split; [|congruence].
       intros g [Hg|[<-|Hg]]; apply He; auto.
 Qed.
 
@@ -103,17 +51,15 @@ Section History.
                  forall ins v swg, eval_pe opsem g swg ins = Some v -> eval_pe opsem G sw ins = Some v.
   Proof.
     intros Hm Hok Hwf g Hg. destruct gs as [|g0 rest]; [contradiction|]. unfold merge_all in Hm. fold ma_step in Hm.
-    assert (forall g, In g (g0 :: rest) -> is_concrete g = true /\ nodup_ids (map nid (pnodes g)) = true /\ plain_pe g = true) as Hk.
+    assert (forall g, In g (g0 :: rest) -> is_concrete g = true /\ nodup_ids (map nid (pnodes g)) = true) as Hk.
     { intros x Hx. destruct (Hok x Hx) as [H _]. unfold kernel_ok in H. rewrite !andb_true_iff in H. tauto. }
-    destruct (Hk g0 (or_introl eq_refl)) as (Hc0 & Hn0 & Hp0).
-    destruct (history_invariant rest (fun g => g = g0) g0 G Hm) as (He & Hp & Hd).
-    - intros x Hx. apply Hk. right. exact Hx.
-    - exact Hp0.
+    destruct (Hk g0 (or_introl eq_refl)) as (Hc0 & Hn0).
+    destruct (history_invariant rest (fun g => g = g0) g0 G Hm) as (He & Hd).
     - intros x ->. apply embeds_refl; assumption.
     - assert (embeds g G) as Hemb by (apply He; destruct Hg as [<-|Hg]; auto).
-      destruct (Hk g Hg) as (Hc & Hn & Hpg). destruct (Hok g Hg) as [_ Hpd].
+      destruct (Hk g Hg) as (Hc & Hn). destruct (Hok g Hg) as [_ Hpd].
       destruct (embedded_decodable g G Hwf Hc Hn Hpd Hemb) as [sw Hsw].
       exists sw. split; [exact Hsw|]. split; [eapply switch_count; eauto|].
-      apply decode_sound_pe; auto. apply plain_ops_agree; assumption.
+      apply decode_sound_pe; auto. apply emb_ops_agree; assumption.
   Qed.
 End History.
